@@ -445,8 +445,14 @@ def _limits():
     os.setsid()
 
 
+# environment / working directory of the processes started by run_stateless (C06 perturbs them)
+PROC_ENV = None
+PROC_CWD = None
+
+
 def _run_one(binary, layer, lines, timeout):
-    p = subprocess.Popen([binary, layer], stdin=subprocess.PIPE, stdout=subprocess.PIPE, stderr=subprocess.PIPE, preexec_fn=_limits)
+    p = subprocess.Popen([binary, layer], stdin=subprocess.PIPE, stdout=subprocess.PIPE, stderr=subprocess.PIPE, preexec_fn=_limits,
+                         env=PROC_ENV, cwd=PROC_CWD)
     try:
         o, e = p.communicate(("\n".join(lines) + "\n").encode(), timeout=timeout)
         return p.returncode, _lines(o), e.decode("utf8", "replace")
